@@ -1,5 +1,17 @@
 import Spq.Drv.Util
-/- driver family stub (filled in by the owner of this family) -/
+import Spq.F64
+/- driver family `f6`: soft-float primitives (and, later, the numeric conversions)
+     f6 add a b | f6 sub a b | f6 mul a b | f6 fma a b c | f6 ofint x | f6 rint a | f6 trunc a -/
 namespace Spq.Drv
-def handleF6 (_args : List String) : Option String := none
+open Spq
+def handleF6 (args : List String) : Option String :=
+  match args with
+  | ["add", a, b] => some (toString (F64.add (parseNat a) (parseNat b)))
+  | ["sub", a, b] => some (toString (F64.sub (parseNat a) (parseNat b)))
+  | ["mul", a, b] => some (toString (F64.mul (parseNat a) (parseNat b)))
+  | ["fma", a, b, c] => some (toString (F64.fma (parseNat a) (parseNat b) (parseNat c)))
+  | ["ofint", x] => some (toString (F64.ofInt (parseInt x)))
+  | ["rint", a] => some (toString (F64.rint (parseNat a)))
+  | ["trunc", a] => some (toString (F64.toIntTrunc (parseNat a)))
+  | _ => none
 end Spq.Drv
